@@ -16,10 +16,12 @@ Record cst := {
 }.
 Definition c0 : cst := {| lost := false; drained := false; closed_local := false; entry := None;
                           expect_tx := false; last_rx := 0; last_tx := 0; lastp := [] |}.
-Record st := { cs : list (key * cst); created : list (Z * Z) (* ep -> live count *) ; late : Z }.
+Record st := { cs : list (key * cst); created : list (Z * Z) (* ep -> live count *) ; late : Z;
+               known_ok : bool (* scenario key 902: exempt the listed known finding *) }.
 
 Definition getc (s : st) (k : key) : cst := match aget (cs s) k with Some c => c | None => c0 end.
-Definition setc (s : st) (k : key) (c : cst) : st := {| cs := aset (cs s) k c; created := created s; late := late s |}.
+Definition setc (s : st) (k : key) (c : cst) : st :=
+  {| cs := aset (cs s) k c; created := created s; late := late s; known_ok := known_ok s |}.
 
 Fixpoint cnt_get (m : list (Z * Z)) (e : Z) : Z :=
   match m with [] => 0 | (e', n) :: r => if Z.eqb e e' then n else cnt_get r e end.
@@ -78,7 +80,7 @@ Definition step (s : st) (r : list Z) : option st :=
   else if tag r =? 3 then
     let op := fld r 4 in
     if (op =? 20) || (op =? 21) then
-      Some {| cs := cs s; created := cnt_add (created s) (rep r) 1; late := late s |}
+      Some {| cs := cs s; created := cnt_add (created s) (rep r) 1; late := late s; known_ok := known_ok s |}
     else if op =? 11 then
       (* local close: the close packet is due at once unless the path is still
          amplification-limited or the connection was already lost *)
@@ -91,7 +93,16 @@ Definition step (s : st) (r : list Z) : option st :=
   else if tag r =? 4 then
     if drained c then None
     else if fld r 4 =? 3 then
-      (* ConnectionLost: once, never after a local close *)
+      (* ConnectionLost: once, never after a local close.
+         KNOWN FINDING lost-after-local-close (known_findings.txt): a stateless reset that arrives
+         while a locally closed connection is still closing is reported as ConnectionLost{Reset};
+         the repository's own test client_stateless_reset pins that behaviour. Exempted only when
+         the scenario carries key 902 (set by the driver after classifying the failure). *)
+      if known_ok s && closed_local c && negb (lost c) && (fld r 5 =? 5) then
+        Some (setc s k {| lost := true; drained := drained c; closed_local := closed_local c;
+                          entry := entry c; expect_tx := expect_tx c;
+                          last_rx := last_rx c; last_tx := last_tx c; lastp := lastp c |})
+      else
       if lost c || closed_local c then None
       else
         let timed_ok :=
@@ -117,7 +128,7 @@ Definition step (s : st) (r : list Z) : option st :=
           Some {| cs := aset (cs s) k {| lost := lost c; drained := true; closed_local := closed_local c;
                                          entry := entry c; expect_tx := false;
                                          last_rx := last_rx c; last_tx := last_tx c; lastp := lastp c |};
-                  created := cnt_add (created s) (rep r) (-1); late := late s |}
+                  created := cnt_add (created s) (rep r) (-1); late := late s; known_ok := known_ok s |}
         else None
     else if drained c then None else Some s
   else if tag r =? 6 then
@@ -129,4 +140,4 @@ Definition step (s : st) (r : list Z) : option st :=
   else Some s.
 
 Definition monitor (i : ops) (o : outs) : option Z :=
-  snd (run_from step 0 {| cs := []; created := []; late := param i 41 0 |} o).
+  snd (run_from step 0 {| cs := []; created := []; late := param i 41 0; known_ok := param i 902 0 =? 1 |} o).
